@@ -215,7 +215,7 @@ def new_case(cid=None):
 def plan_for(key):
     r = random.Random(f"fault-plan/{key}")
     return {"k": r.choice([0, 0, 0, 1, 1, 1, 2, 2, 3, 4, 5, 7]),
-            "kind": r.choice(["open", "read", "read", "write", "write", "fsize", "fsize"]),
+            "kind": r.choice(os.environ.get("VERIF_FAULT_KINDS", "open,read,read,write,write,fsize,fsize").split(",")),
             "j": r.choice([0, 0, 0, 1, 1, 2, 3]), "limit": r.choice([0, 1, 7, 16, 40, 100, 300, 1000, 4096, 40000])}
 
 
@@ -251,6 +251,60 @@ def run(key, invoke, p=0.06, plan=None):
 
 case_id = None
 _calls = 0
+
+
+def _once_only(vals):
+    """an input that can be read only once (a pipe) rules out running the operation a second time"""
+    def walk(v, depth=0):
+        if isinstance(v, (list, tuple)) and depth < 2:
+            return any(walk(x, depth + 1) for x in v)
+        if isinstance(v, os.PathLike):
+            v = os.fspath(v)
+        return isinstance(v, str) and ("/dev/fd/" in v or "/dev/stdin" in v or "/proc/self/fd" in v)
+    return walk(vals)
+
+
+def _absent(vals):
+    """paths named by the arguments that do not exist yet (outputs), and the entries of the directories they name"""
+    gone, listing = set(), {}
+
+    def walk(v, depth=0):
+        if isinstance(v, (list, tuple)) and depth < 2:
+            for x in v:
+                walk(x, depth + 1)
+            return
+        if isinstance(v, os.PathLike):
+            v = os.fspath(v)
+        if not isinstance(v, str) or "\0" in v or len(v) > 4000 or not os.path.isabs(v):
+            return
+        try:
+            if os.path.isdir(v):
+                listing[v] = set(os.listdir(v))
+            elif not os.path.lexists(v) and os.path.isdir(os.path.dirname(v)):
+                gone.add(v)
+        except (OSError, ValueError):
+            pass
+    walk(vals)
+    return gone, listing
+
+
+def _remove_new(absent):
+    """what a failed faulted run left behind is removed, so that the second run starts from the state the first one saw"""
+    gone, listing = absent
+    for path in gone:
+        if os.path.isfile(path) or os.path.islink(path):
+            try:
+                os.remove(path)
+            except OSError:
+                pass
+    for d, before in listing.items():
+        try:
+            for name in set(os.listdir(d)) - before:
+                q = os.path.join(d, name)
+                if os.path.isfile(q) or os.path.islink(q):
+                    os.remove(q)
+        except OSError:
+            pass
 
 
 def _snapshot(vals):
@@ -289,12 +343,15 @@ def guarded(p=0.05):
                 return fn(*a, **kw)
             _calls += 1
             vals = list(a) + list(kw.values())
-            pp = 0 if any(isinstance(v, str) and v in ("sub", "build.py", "script") for v in vals) else p
+            pp = 0 if any(isinstance(v, str) and v in ("sub", "build.py", "script") for v in vals) or _once_only(vals) \
+                else p
             box = {}
             snap = _snapshot(vals) if pp else {}
+            absent = _absent(vals) if pp else (set(), {})
 
             def invoke():
                 if "r" in box:
+                    _remove_new(absent)
                     # second run after a failed faulted one: an operation that works in place (output path = an input
                     # path) may have destroyed its own input - put the inputs back as they were
                     for path, data in snap.items():
@@ -306,6 +363,9 @@ def guarded(p=0.05):
                         if not same:
                             with _real_open(path, "wb") as fh:
                                 fh.write(data)
+                            from .. import drive
+                            if path in drive._stale_sig:
+                                drive._stale_sig[path] = drive._sig(path)
                 box["r"] = r = fn(*a, **kw)
                 if r is None or isinstance(r, BaseException):
                     return r
